@@ -26,6 +26,17 @@ def run(run, args):
         "; ".join(cs(j) for j in r["json"]), "; ".join(out_term(o) for o in r["de"])) for r in recs]
     evals = ["rids_where (fun c => negb (r_tie c)) cases", "rids_where (fun c => negb (r_holds c)) cases", "rids_where r_nontrivial cases"]
     res, errors = eval_shards("C07", HEADER, items, "rcase", evals, shard=40)
+    # the serde / text round trip of element specifications: every (element, isotope-or-none) pair of the table
+    from checks.c16 import eout, HEADER as EHEADER
+    rc, out, _ = make(["model/ESpecCheck.vo"])
+    rc, pout, perr, dt = run_harness(["espec", "pairs"], timeout=300)
+    pairs = read_jsonl(pout)[1:] if rc == 0 else []
+    pitems = ["mkPCs %d%%N %s %d%%N %s %s %s %s" % (p["id"], coq_str(p["pair"][0]), p["pair"][1], cs(p["text"]), eout(p["back"]), cs(p["json"]), eout(p["de"]))
+              for p in pairs]
+    pres, perrors = eval_shards("C07_pairs", EHEADER, pitems, "pcase",
+                                ["pids_where (fun c => negb (p_tie c)) cases", "pids_where (fun c => negb (p_holds c)) cases"], shard=1000)
+    errors = errors + perrors
+    run.cov["element_specification_pairs"] = len(pairs)
     by_id = {r["id"]: r for r in recs}
     known = {k: t for (k, t) in load_known("C07")}
     fails, knowns = [], {}
@@ -54,6 +65,9 @@ def run(run, args):
         print("KNOWN-FINDING: property=C07 %s %s" % (k, known[k]))
     if errors:
         violation(run, {"broken": "case file does not evaluate", "detail": errors[0][1]}, nofail=True)
+    run.oblige("every element specification of the table round-trips through its text and its serde form", bool(pairs) and not pres[1], "%d pairs" % len(pairs))
+    if pairs and pres[1]:
+        violation(run, {"failing_input": pairs[pres[1][0]], "what": "an element specification does not deserialize / parse back to an equal value"})
     if fails:
         violation(run, {"failing_input": by_id[fails[0]], "what": "renderings differ between insertion orders / representations, or the text (or its serde "
                         "form) does not parse back to the same composition", "all_failing_ids": fails[:40]})
